@@ -43,19 +43,26 @@ func runVec(v *Vec) (res string) {
 			cpu.Step()
 		}
 	case "run":
-		// Run with a generous watchdog; the result is the error class and the state
-		ctx, cancel := context.WithTimeout(context.Background(), 20*time.Second)
-		err := cpu.Run(ctx)
-		cancel()
-		r := resultStr(v.ID, cpu, w)
-		switch {
-		case err == nil:
-			return r + " RUN nil"
-		case err == z80.ErrBreakPoint:
-			return r + " RUN bp"
-		default:
-			return r + " RUN " + strings.ReplaceAll(err.Error(), " ", "_")
+		// N consecutive calls of Run, each with a watchdog; the result is the error class of every call and the final state
+		codes := ""
+		n := v.N
+		if n < 1 {
+			n = 1
 		}
+		for k := 0; k < n; k++ {
+			ctx, cancel := context.WithTimeout(context.Background(), 5*time.Second)
+			err := cpu.Run(ctx)
+			cancel()
+			switch {
+			case err == nil:
+				codes += " nil"
+			case err == z80.ErrBreakPoint:
+				codes += " bp"
+			default:
+				codes += " " + strings.ReplaceAll(err.Error(), " ", "_")
+			}
+		}
+		return resultStr(v.ID, cpu, w) + " RUN" + codes
 	default:
 		return v.ID + " ? unknown-kind"
 	}
@@ -95,6 +102,8 @@ func main() {
 		cmdRun()
 	case "gen":
 		cmdGen(os.Args[2:])
+	case "memio":
+		cmdMemio()
 	default:
 		fmt.Fprintln(os.Stderr, "unknown command")
 		os.Exit(2)
